@@ -224,7 +224,9 @@ pub fn replay(args: &[String]) {
     let sample = lines.get(lines.len() / 2).and_then(|l| util::parse_tlc_line(l, "SENT"));
     let out = json!({"sentences": sentences.len(), "derivations": lines.len(), "ambiguous": ambiguous.iter().take(10).collect::<Vec<_>>(), "n_ambiguous": ambiguous.len(),
         "tree_mismatches": bad.len(), "first": bad.iter().take(60).collect::<Vec<_>>(),
-        "span_mismatches": span_bad.len(), "span_first": span_bad.iter().take(400).collect::<Vec<_>>(), "strings": strings, "over_accepted": over.len(), "over": over, "panics": panics, "sample": sample});
+        "span_mismatches": span_bad.len(),
+        "span_first": span_bad.iter().filter(|m| !m["detail"].as_str().unwrap_or("").starts_with("LOST-OPEN-PAREN")).take(400)
+            .chain(span_bad.iter().filter(|m| m["detail"].as_str().unwrap_or("").starts_with("LOST-OPEN-PAREN")).take(40)).collect::<Vec<_>>(), "strings": strings, "over_accepted": over.len(), "over": over, "panics": panics, "sample": sample});
     std::fs::write(&args[2], serde_json::to_string(&out).unwrap()).unwrap();
 }
 
